@@ -102,7 +102,7 @@ func orderRoots(p *Program) []orderRoot {
 
 // orderRuleOf maps an engine report kind to the rule name it is an instance of.
 var orderRules = map[string]string{
-	"ORDER": "ORDER", "SLOT": "SLOT", "COMMITPOINT": "COMMITPOINT", "FINALIZE": "FINALIZE",
+	"ORDER": "ORDER", "SLOT": "SLOT", "STICKY-BARRIER": "ORDER", "COMMITPOINT": "COMMITPOINT", "FINALIZE": "FINALIZE",
 	"READER-PASSIVE": "READER-IS-PASSIVE", "WHO-MAY-SWITCH": "WHO-MAY-SWITCH",
 }
 
